@@ -23,6 +23,7 @@ structure NodeSlot where
   boot : List (Nat × Nat) := []
   tobs : List Nat := []
   extraEv : List String := []
+  muted : List Nat := []
 
 structure DState where
   closest : ClosestNodes := { target := ⟨[]⟩ }
@@ -57,6 +58,8 @@ structure DState where
       list is taken; `extraEv` holds what was taken until the next flush -/
   tobs : List Nat := []
   extraEv : List String := []
+  /-- callers whose future is parked by the harness (`mute=1`): what they are handed is not shown -/
+  muted : List Nat := []
   outSeen : Nat := 0
   -- mnet stream: the other nodes of the case (the current one is loaded into the fields above)
   multi : Bool := false
@@ -355,8 +358,11 @@ def showValueItem : Value → String
   | .mutable i => s!"k={bytesToHex i.key} seq={i.seq} v={hz i.value} sig={bytesToHex i.sig} salt={match i.salt with | none => "none" | some s => hz s} target={bytesToHex i.target.bytes}"
 
 /-- the API facades on top of the sender-level events -/
+def eventCaller : Event → Nat
+  | .value c _ | .nodes c _ | .closed c | .putResult c _ | .info c _ => c
+
 def facade (st : DState) (evs : List Event) : DState × List String :=
-  evs.foldl (fun (acc : DState × List String) ev =>
+  (evs.filter fun ev => !st.muted.contains (eventCaller ev)).foldl (fun (acc : DState × List String) ev =>
     let st := acc.1
     match ev with
     | .value c (.immutable v) =>
@@ -560,6 +566,7 @@ def step3 (st : DState) (toks : List String) : DState × String :=
           -- announce_peer, announce_signed_peer) are remembered as c + 1000000
           let plain := call == "put_imm" || call == "announce" || call == "sannounce"
           ({ st with apiQ := st.apiQ ++ [m],
+                     muted := (if kvOf rest "mute" == some "1" then [c] else []) ++ st.muted,
                      recent := (if call == "get_mut_recent" then [(c, none)] else []) ++ st.recent,
                      boot := (if call == "bootstrapped" then [(c, 0)] else []) ++ st.boot,
                      immCallers := (if isImm then [c] else []) ++ (if plain then [c + 1000000] else []) ++ st.immCallers }, "ok")
@@ -626,7 +633,7 @@ def saveSlot (st : DState) (i : Nat) : DState :=
   | some a =>
     let slot : NodeSlot := { actor := a, nodeAddr := st.nodeAddr, nreqs := st.nreqs, apiQ := st.apiQ,
                              immCallers := st.immCallers, immResolved := st.immResolved, recent := st.recent, boot := st.boot,
-                             tobs := st.tobs, extraEv := st.extraEv }
+                             tobs := st.tobs, extraEv := st.extraEv, muted := st.muted }
     { st with slots := (i, slot) :: st.slots.filter (·.1 != i), actor := none }
   | none => st
 
@@ -634,7 +641,7 @@ def loadSlot (st : DState) (i : Nat) : Option DState :=
   (st.slots.find? (·.1 == i)).map fun p =>
     { st with actor := some p.2.actor, nodeAddr := p.2.nodeAddr, nreqs := p.2.nreqs, apiQ := p.2.apiQ,
               immCallers := p.2.immCallers, immResolved := p.2.immResolved, recent := p.2.recent, boot := p.2.boot,
-              tobs := p.2.tobs, extraEv := p.2.extraEv }
+              tobs := p.2.tobs, extraEv := p.2.extraEv, muted := p.2.muted }
 
 /-- mnet stream: several model nodes, ops prefixed with the node index -/
 def step4 (st : DState) (toks : List String) : DState × String :=
@@ -645,7 +652,7 @@ def step4 (st : DState) (toks : List String) : DState × String :=
        if i != st.slots.length then (st, "bad-op") else
        (match mkNodeActor rest st.now with
         | some (a, addr) =>
-          let st1 : DState := { st with actor := some a, nodeAddr := addr, nreqs := [], apiQ := [], immCallers := [], immResolved := [], recent := [], boot := [], tobs := [], extraEv := [] }
+          let st1 : DState := { st with actor := some a, nodeAddr := addr, nreqs := [], apiQ := [], immCallers := [], immResolved := [], recent := [], boot := [], tobs := [], extraEv := [], muted := [] }
           let (st2, out) := step3 st1 ["init"]
           (saveSlot st2 i, out)
         | none => (st, "bad-op"))
